@@ -199,6 +199,7 @@ int main()
   W st;
   st.reset(10, 8, 2);
   int rc = vh::runLines([&](const std::vector<std::string>& t) -> std::string {
+    std::fflush(stdout);   // answers of earlier ops must survive a sanitizer abort inside this one
     g_op_started_ns.store(realNowNs(CLOCK_REALTIME), std::memory_order_release);
     std::string out = guarded([&]() -> std::string {
       long long a = 0, b = 0, c = 0;
